@@ -147,6 +147,12 @@ def corruptions(seed, donors, lay, every_boundary):
         ("only_end", False, True, b"end\n"),
         ("only_end_module", False, True, b"end module never_opened\n"),
         ("only_open", False, True, b"module never_closed\n"),
+        ("module_without_name", False, True, b"module\ninteger :: nameless_var\nend module\n"),
+        ("module_without_name", False, True, b"module\n"),
+        # submodules whose parent is the submodule itself, is nowhere, or whose parents form a cycle (the ancestor module is a valid one of the project)
+        ("submodule_that_is_its_own_parent", False, True, b"submodule (shared_names:selfsub) selfsub\nend submodule selfsub\n"),
+        ("submodule_of_unknown_parent", False, True, b"submodule (shared_names:no_such_parent) orphan_sub\nend submodule orphan_sub\n"),
+        ("submodules_with_cyclic_parents", False, True, b"submodule (shared_names:cyc_sb) cyc_sa\nend submodule cyc_sa\nsubmodule (shared_names:cyc_sa) cyc_sb\nend submodule cyc_sb\n"),
         ("only_open_with_doc", False, True, b"subroutine never_closed(a)\n!! doc line\n"),
         ("interface_never_closed", False, True, b"module m_ifc_open\ninterface\nsubroutine s()\nend subroutine\nend module m_ifc_open\n"),
         ("type_never_closed", False, True, b"module m_type_open\ntype t\ninteger :: a\nend module m_type_open\n"),
